@@ -152,5 +152,6 @@ func main() {
 		genWireDec(p, *out)
 		genBuf(p, *out)
 		genRead(p, *out)
+		genGetAny(p, *out)
 	}
 }
